@@ -57,6 +57,11 @@ var (
 	ptrSlice             = &sliceDoc
 )
 
+// foreign types that can print themselves: a value is not a string because its type has a String() method
+type myLabel struct{ N int }
+
+func (l myLabel) String() string { return "7 z" }
+
 type kindT struct {
 	name string
 	make func() interface{}
@@ -108,6 +113,8 @@ var kinds = []kindT{
 	{"emptystrslice", func() interface{} { return []string{} }},
 	{"emptyintmap", func() interface{} { return map[string]int{} }},
 	{"nilintmap", func() interface{} { return map[string]int(nil) }},
+	{"duration", func() interface{} { return 2 * time.Second }},
+	{"stringer", func() interface{} { return myLabel{N: 7} }},
 	// an unnamed struct type: its name is its whole declaration, field tags (and whatever characters they hold) included
 	{"tagstruct", func() interface{} {
 		return struct {
